@@ -61,10 +61,11 @@ let handle = function
       else "ok " ^ e ^ " " ^ rb (jump_site op cf l r) ^ " " ^ rb (spec_cmp cf op l r)
   | ["probe"; cf; ofm; l; r] ->
       (* everything one end-to-end probe prints, composed from the extracted functions:
-         8 expression results (six ops on (l,r), then r<l, r>l), 6 if-forms (the compiler
-         emits the INVERSE fused jump and skips the branch when it is taken), 6 do-while
-         forms (the fused jump itself), !l, truth of l, l == l+0, then l+0, l "", r "",
-         and the OFMT form of l *)
+         8 expression results (six ops on (l,r), then r<l, r>l); 6 if-forms and 6 ?:-forms
+         (cond_inverted); 6 do-while forms (cond_direct); 6 while-forms and 6 for-forms, each a
+         digit 0 (top test false), 1 (top true, bottom false), 2 (both true) with the top test
+         cond_inverted and the bottom test cond_direct; then !l, truth of l, l == l+0; then
+         l+0, l "", r "", and the OFMT form of l *)
       let cf = bytes_of_hex cf and ofm = bytes_of_hex ofm
       and l = value_of_string l and r = value_of_string r in
       let exception U in
@@ -74,20 +75,21 @@ let handle = function
         | Ok (VNum x) -> if string_of_fnum x = "1:0" then "1" else "0"
         | Unmod -> raise U | _ -> raise P in
       let hx = function Ok b -> hex_of_bytes b | Unmod -> raise U | _ -> raise P in
-      let inv = function OEq -> ONe | ONe -> OEq | OLt -> OGe | OGe -> OLt | OGt -> OLe | OLe -> OGt in
       let ops = [OEq; ONe; OLt; OGt; OLe; OGe] in
       (try
         let e = String.concat "" (List.map (fun op -> ebit (expr_site op cf l r)) ops)
                 ^ ebit (expr_site OLt cf r l) ^ ebit (expr_site OGt cf r l) in
-        let i = String.concat "" (List.map (fun op ->
-                  if bit (jump_site (inv op) cf l r) = "1" then "0" else "1") ops) in
-        let d = String.concat "" (List.map (fun op -> bit (jump_site op cf l r)) ops) in
+        let i = String.concat "" (List.map (fun op -> bit (cond_inverted op cf l r)) ops) in
+        let d = String.concat "" (List.map (fun op -> bit (cond_direct op cf l r)) ops) in
+        let loop op = if bit (cond_inverted op cf l r) = "0" then "0"
+                      else if bit (cond_direct op cf l r) = "0" then "1" else "2" in
+        let w = String.concat "" (List.map loop ops) in
         let n = match v_num l with Ok x -> x | Unmod -> raise U | _ -> raise P in
         let t = (if v_boolean l then "0" else "1") ^ (if v_boolean l then "1" else "0")
                 ^ ebit (expr_site OEq cf l (VNum n)) in
         let pr = match l with VNum _ -> hx (v_str ofm l) | _ -> "-" in
-        "ok " ^ e ^ " " ^ i ^ " " ^ d ^ " " ^ t ^ " " ^ string_of_fnum n ^ " " ^ hx (v_str cf l)
-        ^ " " ^ hx (v_str cf r) ^ " " ^ pr
+        "ok " ^ e ^ " " ^ i ^ " " ^ i ^ " " ^ d ^ " " ^ w ^ " " ^ w ^ " " ^ t ^ " " ^ string_of_fnum n
+        ^ " " ^ hx (v_str cf l) ^ " " ^ hx (v_str cf r) ^ " " ^ pr
       with U -> "unmod" | P -> "panic")
   | op :: _ -> "driver-error unknown-op " ^ op
   | [] -> "driver-error empty"
